@@ -36,7 +36,7 @@ pub mod symrng;
 
 pub mod probes;
 
-#[cfg(feature = "pushvm")]
+#[cfg(any(feature = "pushvm", feature = "c19"))]
 pub mod push_ref;
 #[cfg(feature = "pushvm")]
 pub mod c01_step;
@@ -44,8 +44,10 @@ pub mod c01_step;
 pub mod c01_stepgen;
 #[cfg(feature = "pushvm")]
 pub mod c01_print;
-#[cfg(feature = "pushvm")]
+#[cfg(any(feature = "pushvm", feature = "c19"))]
 pub mod c01_exec;
+#[cfg(feature = "c19")]
+pub mod c19_builder;
 #[cfg(all(feature = "pushvm", feature = "thorough"))]
 pub mod c01_dispatch;
 #[cfg(feature = "c04")]
@@ -64,6 +66,8 @@ pub mod c13_weighted;
 pub mod c14_compose;
 #[cfg(feature = "c15")]
 pub mod c15_order;
+#[cfg(feature = "c16")]
+pub mod c16_determinism;
 #[cfg(feature = "c17")]
 pub mod c17_erased;
 #[cfg(feature = "c18")]
